@@ -612,13 +612,26 @@ def _thr_explorer(unit, bound, max_exec=None):
     return sched_pool.PoolExplorer(M["par"], _thr_files(unit), bound, max_exec=max_exec)
 
 
+def _thr_guard(fn, st):
+    """an exception of the engine inside the observed call is an observation (a schedule under which the stage raises
+    while it answers under another is exactly what the leg looks for), not a harness failure"""
+    from mc.runner import HarnessError
+    from mc.sched_pool import PoolAbort
+    try:
+        return fn(st)
+    except (HarnessError, PoolAbort):
+        raise
+    except Exception as e:  # noqa: BLE001
+        return {"raised": "%s: %s" % (type(e).__name__, str(e)[:200]), "metrics": {}}
+
+
 def _thr_one(unit, pe, prefix, strict=True):
     """one schedule: set-up on the calling thread (sequential configuration), the observed call under the controlled
     pool, then a follow-up call (sequential configuration again: what the schedule left in the process-global caches)"""
     call, body, after = _thr_call(unit)
     _, st = call()
-    ex, obs = pe.run_one(lambda: body(st), prefix, strict=strict)
-    return ex, {"call": obs, "next": after(st)}
+    ex, obs = pe.run_one(lambda: _thr_guard(body, st), prefix, strict=strict)
+    return ex, {"call": obs, "next": _thr_guard(after, st)}
 
 
 def _thr_diff(ref, got):
